@@ -34,8 +34,19 @@ import (
 
 type ctx struct {
 	r *common.Run
+	// rnd: the run's generator.  common.NewRand(seed) starts seed n+1 exactly one draw after
+	// seed n (its state is seed*γ + c and every draw adds γ), so consecutive VERIF_SEEDs would
+	// replay almost the same sub-seeds; the seed is therefore mixed before it is used.
+	rnd *common.Rand
 	// skel: prefix code of the regenerated skeleton of every writer of the working tree
 	skel map[string]string
+}
+
+// mixSeed is the splitmix64 finaliser: unrelated streams for neighbouring seeds.
+func mixSeed(s uint64) uint64 {
+	z := (s + 0x632BE59BD9B4E019) * 0xBF58476D1CE4E5B9
+	z = (z ^ (z >> 29)) * 0x94D049BB133111EB
+	return z ^ (z >> 32)
 }
 
 func repoDir() string {
@@ -269,6 +280,14 @@ func (c *ctx) replay(lines []string) {
 		case "val":
 			sub, _ := strconv.ParseUint(f[3], 10, 64)
 			bad := len(f) > 4 && f[4] == "1"
+			if len(f) > 4 && f[4] == "3" {
+				if f[2] == "form.Data" {
+					formEnum(c, parseScript(f[3]))
+				} else if e := find(f[2]); e != nil {
+					e.enum(c, parseScript(f[3]))
+				}
+				continue
+			}
 			if len(f) > 4 && f[4] == "2" {
 				if f[2] == "form.Data" {
 					formWitness(c, int(sub))
@@ -308,7 +327,7 @@ func (c *ctx) replay(lines []string) {
 
 // Run is the C19 runner.
 func Run(r *common.Run) error {
-	c := &ctx{r: r, skel: skeletons(repoDir())}
+	c := &ctx{r: r, skel: skeletons(repoDir()), rnd: common.NewRand(mixSeed(r.Seed))}
 	if r.Replay != "" {
 		lines, err := common.ReplayLines(r.Replay)
 		if err != nil {
@@ -318,6 +337,21 @@ func Run(r *common.Run) error {
 		return nil
 	}
 	sort.SliceStable(registry, func(i, j int) bool { return registry[i].name < registry[j].name })
+
+	// layer 1: C09's checker (compiled from the same Lean definition the theorem is about) on
+	// the panic skeleton of every function of the C19 files, regenerated from the working tree
+	r.Mark("case pskel")
+	if sk, trusted, err := panicSkeletons(repoDir()); err != nil {
+		r.Notes = append(r.Notes, "panic skeleton extraction failed: "+err.Error())
+		r.Line("pskel k", "extraction-failed")
+	} else {
+		for _, p := range sk {
+			r.Line("pskel "+p[1], "ok")
+			r.Case("pskel "+p[0], true, "pskel")
+		}
+		r.Extra["panic_skeletons"] = len(sk)
+		r.Extra["panic_allow_listed_sites"] = trusted
+	}
 
 	// corpus first
 	r.Mark("case corpus")
@@ -339,13 +373,36 @@ func Run(r *common.Run) error {
 		formCase(c, sub, false, "corpus")
 	}
 
+	// small-scope exhaustive part: the tree of generator choices of every type in
+	// enumeration mode (every optional field absent/present, 0/1/2 children, the four-value
+	// text alphabet, three numbers, three JIDs, two or three times), fewest non-default
+	// choices first; complete when the tree fits the cap
+	capEnum := r.Pick(400, 6000)
+	for i := range registry {
+		e := &registry[i]
+		r.Mark("case enum %s", strings.ReplaceAll(e.name, " ", "_"))
+		n, complete := enumerate(capEnum, func(sc []int) []int { return e.enum(c, sc) })
+		if complete {
+			r.Exhaustive = append(r.Exhaustive, fmt.Sprintf("%s: all %d values of the enumeration-mode generator", e.name, n))
+		} else {
+			r.Notes = append(r.Notes, fmt.Sprintf("enumeration of %s truncated at %d values (breadth first)", e.name, n))
+		}
+	}
+	r.Mark("case enum form.Data")
+	if n, complete := enumerate(capEnum*3, func(sc []int) []int { return formEnum(c, sc) }); complete {
+		r.Exhaustive = append(r.Exhaustive, fmt.Sprintf("form.Data: all %d forms and Set sequences of the enumeration-mode generator", n))
+	} else {
+		r.Notes = append(r.Notes, fmt.Sprintf("enumeration of form.Data truncated at %d values (breadth first)", n))
+	}
+
 	// data forms: the deepest layer
 	nForm := r.Pick(1500, 20000)
 	for i := 0; i < nForm; i++ {
 		r.Mark("case form %d", i)
-		formCase(c, r.Rnd.Uint64(), i%10 == 9, "random")
+		formCase(c, c.rnd.Uint64(), i%10 == 9, "random")
 	}
 	modelCases(c)
+	modelCases2(c)
 
 	// every registered type: generated values through every writer path
 	nVal := r.Pick(120, 1500)
@@ -353,20 +410,20 @@ func Run(r *common.Run) error {
 		e := &registry[i]
 		for k := 0; k < nVal; k++ {
 			r.Mark("case %s %d", strings.ReplaceAll(e.name, " ", "_"), k)
-			e.one(c, r.Rnd.Uint64(), k%6 == 5, "random")
+			e.one(c, c.rnd.Uint64(), k%6 == 5, "random")
 		}
 	}
 	// forwarding / carbons: Wrap then Unwrap
 	nUnw := r.Pick(200, 3000)
 	for k := 0; k < nUnw; k++ {
 		r.Mark("case unwrap %d", k)
-		unwrapCase(c, r.Rnd.Uint64(), "random")
+		unwrapCase(c, c.rnd.Uint64(), "random")
 	}
 	// pubsub request builders on a real session
 	nPub := r.Pick(60, 600)
 	for k := 0; k < nPub; k++ {
 		r.Mark("case pubsub %d", k)
-		pubsubCase(c, r.Rnd.Uint64(), "random")
+		pubsubCase(c, c.rnd.Uint64(), "random")
 	}
 	// arbitrary XML into every unmarshaller
 	nXML := r.Pick(150, 2500)
@@ -385,9 +442,9 @@ func Run(r *common.Run) error {
 			return [][]byte{b}
 		}}
 	r.Mark("case xml")
-	c.fuzzType(&formEntry, r.Rnd.Fork(), nXML*3)
+	c.fuzzType(&formEntry, c.rnd.Fork(), nXML*3)
 	for i := range registry {
-		c.fuzzType(&registry[i], r.Rnd.Fork(), nXML)
+		c.fuzzType(&registry[i], c.rnd.Fork(), nXML)
 	}
 	r.Notes = append(r.Notes, fmt.Sprintf("%d payload types registered (+ form.Data); internal/saslerr and muc's unexported join options are not importable from the harness module: layer 1 only", len(registry)))
 	return nil
